@@ -321,6 +321,25 @@ def r_C28b_C33b_C30bc(root):
             okp = k_ == "ret" and v_ is tree_
             ob("C28", "C28.g", M, "TextXModelParser._parse", "a successful parse returns the parse tree", okp)
             if not okp: out.append(Finding("C28", "C28.g", M, "TextXModelParser._parse", "successful parse", "a successful parse %s; documented: the parse tree" % ("raises " + v_.cls if k_ == "raise" else "returns something else")))
+    # C28.i  how an error prints: located (gcc style) as soon as ANY of line / col / file name is known
+    for cls_ in ("TextXError", "TextXSemanticError", "TextXSyntaxError"):
+        if cls_ not in xcds: continue
+        for line, col, fname, ctx, want in ((3, 4, "m.file", None, "m.file:3:4: boom"), (None, None, "m.file", None, "m.file:None:None: boom"), (3, None, None, None, "None:3:None: boom"), (None, 4, None, None, "None:None:4: boom"),
+                                            (None, None, None, None, "boom"), (3, 4, "m.file", "ab*cd", "m.file:3:4: boom => 'ab*cd'")):
+            inst += 1
+            envx = {"__classdefs__": xcds, "__functions__": {}, "__module__": xt}
+            kwx = {"line": line, "col": col, "filename": fname}
+            if ctx is not None: kwx["context"] = ctx
+            try:
+                e_ = _pe0.instantiate(cls_, ["boom"], kwx, envx); got_ = _pe0.text_of(e_, envx)
+            except _pe0.Raised as r_:
+                got_ = "boom" if (r_.cls in ("Unsupported",)) else "raises " + r_.cls
+            except _pe0.Unsupported as u_:
+                if "super().__str__" in str(u_): got_ = "boom"        # the unlocated form delegates to Exception.__str__ (outside the interpreted classes): the message itself
+                else: raise AnalysisError("%s.__str__: outside the evaluated subset: %s" % (cls_, u_))
+            okx = got_ == want
+            ob("C28", "C28.i", "textx/exceptions.py", cls_ + ".__str__", "str of an error with line=%r col=%r filename=%r%s" % (line, col, fname, " and context" if ctx else ""), okx)
+            if not okx: out.append(Finding("C28", "C28.i", "textx/exceptions.py", cls_ + ".__str__", "line=%r col=%r filename=%r" % (line, col, fname), "%s('boom', line=%r, col=%r, filename=%r%s) prints as %r; documented %r (file:line:col: message as soon as any of the three is known - an error located only by its file must still say which file)" % (cls_, line, col, fname, ", context=%r" % ctx if ctx else "", got_, want)))
     pv = find(load(root, "textx/scoping/providers.py"), "PlainName.__call__")
     for r in [r for r in ast.walk(pv) if isinstance(r, ast.Raise) and "not unique" in ast.unparse(r)]:
         inst += 1
